@@ -192,11 +192,7 @@ func (rn *runner) copyCase(k int, r *prng.R) {
 			t.DecodeBinary(br)
 			how = "decoded from a stream"
 		case 2:
-			hasReserved := false
-			for _, a := range t.Attributes {
-				hasReserved = hasReserved || a.Type >= transaction.ReservedLowerBound
-			}
-			if !hasReserved {
+			{
 				j, _ := json.Marshal(t)
 				t2 := &transaction.Transaction{}
 				if json.Unmarshal(j, t2) == nil {
